@@ -25,6 +25,8 @@ structure SockState where
   queue : Nat → List Bytes
   /-- ghost: the frames completely sent so far, in the order of completion -/
   done : List Bytes
+  /-- ghost: the same with the number of the sender of each frame -/
+  doneBy : List (Nat × Bytes)
 
 def upd {α : Type} (f : Nat → α) (i : Nat) (a : α) : Nat → α := fun j => if j = i then a else f j
 
@@ -41,7 +43,7 @@ inductive SendStep : SockState → SockState → Prop
   /-- `sendall` has written everything and returns; `send_lock.release()` -/
   | release (s : SockState) (i : Nat) (w : Bytes) :
       s.cur i = some (w, []) →
-      SendStep s { s with lock := none, cur := upd s.cur i none, done := s.done ++ [w] }
+      SendStep s { s with lock := none, cur := upd s.cur i none, done := s.done ++ [w], doneBy := s.doneBy ++ [(i, w)] }
 
 inductive SendReach (init : SockState) : SockState → Prop
   | start : SendReach init init
@@ -49,6 +51,15 @@ inductive SendReach (init : SockState) : SockState → Prop
 
 /-- nothing sent yet, nobody sending; `queue` says what each sender is going to send -/
 def sockInit (queue : Nat → List Bytes) : SockState :=
-  { out := [], lock := none, cur := fun _ => none, queue := queue, done := [] }
+  { out := [], lock := none, cur := fun _ => none, queue := queue, done := [], doneBy := [] }
+
+/-- the frames sender `i` has completely sent, in the order in which the peer got them -/
+def sentBy (s : SockState) (i : Nat) : List Bytes := (s.doneBy.filter (fun p => p.1 == i)).map Prod.snd
+
+/-- the frame sender `i` is writing, if it is inside `sendall` -/
+def inFlight (s : SockState) (i : Nat) : List Bytes :=
+  match s.cur i with
+  | none => []
+  | some (w, r) => [w ++ r]
 
 end Frappy.Wire
